@@ -4,6 +4,7 @@
   what they write.  Used by Proofs/C18.lean and by the driver.
 -/
 import OidcModel.Generated.Session
+import OidcModel.Generated.SessionKeys
 
 namespace Sess
 
@@ -20,5 +21,34 @@ def handle (rt : Router) (now : Int) (o : SessOracles) (rq : Go.R EndSessionReq)
     its hint verifier is what the REGENERATED `Provider.IDTokenHintVerifier` builds for that request -/
 def providerEnder (now : Int) (reqIssuer : String) (hp : HintProvider) (store : SessStore) (defaultLogoutURI : String) : SessionEnder :=
   { store := store, defaultLogoutURI := defaultLogoutURI, hintVerifier := Gen.ProviderIDTokenHintVerifier now reqIssuer hp }
+
+/-- a key-set option passed to `op.NewProvider` -/
+inductive KeyOpt
+  | accessToken (ks : KeySet)      -- `op.WithAccessTokenKeySet(ks)`
+  | idTokenHint (ks : KeySet)      -- `op.WithIDTokenHintKeySet(ks)`
+  deriving Repr, Inhabited
+
+/-- the Go name of the option function and its argument -/
+def KeyOpt.named : KeyOpt → String × KeySet
+  | .accessToken ks => ("WithAccessTokenKeySet", ks)
+  | .idTokenHint ks => ("WithIDTokenHintKeySet", ks)
+
+/-- the key-set fields of the provider `op.NewProvider(config, storage, issuer, opts...)` returns, `own` being the
+    storage-backed key set: the REGENERATED wiring (`GenSessKeys.newProvider_keysets`, `GenSessKeys.optionEffects`) executed -/
+def newProviderKeySets (own : KeySet) (opts : List KeyOpt) : SessKeys.St KeySet :=
+  SessKeys.run GenSessKeys.optionEffects own (opts.map KeyOpt.named) GenSessKeys.newProvider_keysets
+
+/-- a Go `nil` key set (verification fails) -/
+def nilKeySet : KeySet := { kind := .nilSet }
+
+/-- the part of that provider its `IDTokenHintVerifier` method reads -/
+def newProvider (own : KeySet) (opts : List KeyOpt) (algs : List String) : HintProvider :=
+  { idTokenHinKeySet := (SessKeys.get (newProviderKeySets own opts).fields "idTokenHinKeySet").getD nilKeySet,
+    idTokenHintVerifierOpts := algs }
+
+/-- the provider of the real routers, constructed with `opts`, while it serves a request addressed to `reqIssuer` -/
+def constructedEnder (now : Int) (reqIssuer : String) (own : KeySet) (opts : List KeyOpt) (algs : List String)
+    (store : SessStore) (defaultLogoutURI : String) : SessionEnder :=
+  providerEnder now reqIssuer (newProvider own opts algs) store defaultLogoutURI
 
 end Sess
